@@ -302,3 +302,141 @@ package webserver
 //@   -- C17: a token of another group is neither shown nor deleted
 //@   assert at call sendJSON#2 own-group: old$1.Group == g
 //@   assert at call Delete own-group: old$3.Group == g && arg0 == t
+//@
+//@ -- ------------------------------------------------------------------ static files and recordings (C19: confinement by os.Root)
+//@ -- Files named by a request are opened ONLY through the confining os.Root of their directory: the functions below make no
+//@ -- call of the unconfined os.Open / os.OpenFile / os.ReadFile / os.Create / os.Stat / os.Remove (a call of one of them is a failed obligation).
+//@ func (*fileHandler).ServeHTTP
+//@   props C19 C12
+//@   requires nonnil: fh != nil && w != nil && r != nil && r.URL != nil
+//@   modifies *
+//@   assert at call (*os.Root).Open#1 through-root: arg_r == fh.root
+//@   assert at call (*os.Root).Open#2 through-root: arg_r == fh.root
+//@   assert at call os.Open unconfined: false
+//@   assert at call os.OpenFile unconfined: false
+//@   assert at call os.ReadFile unconfined: false
+//@   assert at call os.Stat unconfined: false
+//@   assert at call net/http.ServeFile unconfined: false
+//@
+//@ func serveFile
+//@   props C19 C12
+//@   requires nonnil: w != nil && r != nil
+//@   modifies *
+//@   assert at call (*os.Root).Open through-root: arg_r == root
+//@   assert at call os.Open unconfined: false
+//@   assert at call os.OpenFile unconfined: false
+//@   assert at call os.ReadFile unconfined: false
+//@   assert at call os.Stat unconfined: false
+//@   assert at call net/http.ServeFile unconfined: false
+//@
+//@ func recordingsHandler
+//@   props C19 C12
+//@   requires nonnil: w != nil && r != nil && r.URL != nil
+//@   modifies *
+//@   -- C19: recordings are opened only through the os.Root of the recordings directory
+//@   assert at call OpenRoot recordings-dir: arg_name == diskwriter.Directory
+//@   assert at call (*os.Root).Open through-root: arg_r == first(callresult("OpenRoot", 1))
+//@   assert at call os.Open unconfined: false
+//@   assert at call os.OpenFile unconfined: false
+//@   assert at call os.ReadFile unconfined: false
+//@   assert at call os.Stat unconfined: false
+//@   assert at call net/http.ServeFile unconfined: false
+//@   -- C19/C17: nothing of a group's recordings is served, listed or deleted before the record permission for THAT group was checked,
+//@   -- and the group is a name the group layer accepts
+//@   assert at call checkRecordPermission this-group: arg_groupname == group
+//@   assert at call ServeContent authorised: callresult("checkRecordPermission", 1)
+//@   assert at call serveGroupRecordings authorised: callresult("checkRecordPermission", 1) && arg_group == group
+//@   assert at call handleGroupAction authorised: callresult("checkRecordPermission", 1) && arg_group == group
+//@
+//@ func handleGroupAction
+//@   props C19 C12
+//@   requires nonnil: w != nil && r != nil
+//@   modifies *
+//@   -- C19: the only file operation is a Remove through the os.Root of the recordings directory, of a path made of the (validated)
+//@   -- group and the cleaned, slash-free file name: it cannot leave the group's own recording directory
+//@   assert at call OpenRoot recordings-dir: arg_name == diskwriter.Directory
+//@   assert at call (*os.Root).Remove confined: arg_r == first(callresult("OpenRoot", 1)) && arg_name == callresult("Join", 1)
+//@   assert at call Join in-group: len(arg_elem) == 2 && arg_elem[0] == group && arg_elem[1] == callresult("Clean", 1)
+//@   assert at call Clean rooted: len(arg_path) > 0 && arg_path[0] == '/' && !callresult("ContainsRune", 1)
+//@   assert at call os.Remove unconfined: false
+//@   assert at call os.RemoveAll unconfined: false
+//@   assert at call os.Rename unconfined: false
+//@
+//@ -- ------------------------------------------------------------------ WHIP endpoints (C11: every effect needs its credential)
+//@ spec whipauth() bool = callresult("Token", 1) == "" || callresult("ConstantTimeCompare", 1)
+//@
+//@ func canPresent
+//@   safe
+//@   pure
+//@   props C11 C12
+//@   modifies nothing
+//@   invariant loop 1 range: -1 <= rangeindex && rangeindex < len(perms)
+//@   ensures has-present: result ==> (exists k int :: 0 <= k && k < len(perms) && perms[k] == "present")
+//@
+//@ -- small helpers of the handlers: they only write the response
+//@ func notFound
+//@   trusted
+//@   why webserver.go: writes a 404 page
+//@   modifies ghostint("status", w), icall("http.ResponseWriter.Header", w)[*]
+//@ func methodNotAllowed
+//@   trusted
+//@   why webserver.go: writes a 405
+//@   modifies ghostint("status", w), icall("http.ResponseWriter.Header", w)[*]
+//@ func httpError
+//@   trusted
+//@   why webserver.go: maps an error to a status and writes it
+//@   modifies ghostint("status", w), icall("http.ResponseWriter.Header", w)[*]
+//@ func redirect
+//@   trusted
+//@   why webserver.go: redirects to the canonical host if one is configured
+//@   modifies ghostint("status", w), icall("http.ResponseWriter.Header", w)[*]
+//@ func CheckOrigin
+//@   trusted
+//@   why webserver.go: adds the CORS headers the configuration allows
+//@   modifies icall("http.ResponseWriter.Header", w)[*]
+//@ func whipICEServers
+//@   trusted
+//@   why whip.go: adds Link headers for the configured ICE servers
+//@   modifies icall("http.ResponseWriter.Header", w)[*]
+//@ func deobfuscate
+//@   trusted
+//@   why whip.go: decrypts a session identifier; no effect
+//@   modifies nothing
+//@ func obfuscate
+//@   trusted
+//@   why whip.go: encrypts a session identifier; no effect
+//@   modifies nothing
+//@ func newId
+//@   trusted
+//@   why whip.go: a random identifier; no effect
+//@   modifies nothing
+//@
+//@ func whipResourceHandler
+//@   props C11 C12
+//@   requires nonnil: w != nil && r != nil && r.URL != nil
+//@   requires unlocked: !held(group.groups.mu) && !held(token.tokens.mu)
+//@   -- context assumption: an HTTP handler holds no group mutex
+//@   assume no-group-lock: forall n string :: has(group.groups.groups, n) ==> group.groups.groups[n] == nil || !held(group.groups.groups[n].mu)
+//@   modifies *
+//@   -- C11: the session's bearer token is compared with the one presented, and every effect on the session - closing it, the version
+//@   -- checks that disclose its tag, ICE restarts and candidates - comes after that comparison succeeded (sessions created without a token excepted)
+//@   assert at call ConstantTimeCompare this-token: arg_b == callresult("Token", 1) && arg_a == callresult("parseBearerToken", 1)
+//@   assert at call Close authorised: whipauth()
+//@   assert at call checkPreconditions#1 authorised: whipauth()
+//@   assert at call checkPreconditions#2 authorised: whipauth()
+//@   assert at call UFragPwd#1 authorised: whipauth()
+//@   assert at call Restart authorised: whipauth()
+//@   assert at call SetETag authorised: whipauth()
+//@   assert at call GotICECandidate authorised: whipauth()
+//@
+//@ func whipEndpointHandler
+//@   props C11 C19 C12
+//@   requires nonnil: w != nil && r != nil && r.URL != nil
+//@   requires unlocked: !held(group.groups.mu) && !held(token.tokens.mu)
+//@   modifies *
+//@   -- C19: the group is a name the URL parser accepted
+//@   assert at call Add validated: arg_name == callresult("parseGroupName", 1) && arg_name != ""
+//@   -- C11: the publisher joins with the token presented, into that group, and a connection is created only for a client
+//@   -- that was admitted AND holds the present permission
+//@   assert at call AddClient presented: arg_creds.Token == callresult("parseBearerToken", 1) && arg_creds.Password == "" && !arg_creds.System
+//@   assert at call NewConnection admitted: second(callresult("AddClient", 1)) == nil && callresult("canPresent", 1)
